@@ -351,35 +351,60 @@ def _handle_fill(rep, m_, kind):
             p = getattr(p, "_parent", None)
         v = w.value
         look = v if isinstance(v, ast.Subscript) else (v.args[0] if isinstance(v, ast.Call) and dotted(v.func) == "float" and v.args and isinstance(v.args[0], ast.Subscript) else None)
+        if look is None:
+            # self._scalar(v.name): a one-expression accessor of the class that returns self.values[<its parameter>]
+            inner = v.args[0] if isinstance(v, ast.Call) and dotted(v.func) == "float" and v.args else v
+            if isinstance(inner, ast.Call) and isinstance(inner.func, ast.Attribute) and dotted(inner.func.value) == "self" and len(inner.args) == 1 and not inner.keywords and m_.cls is not None and inner.func.attr in m_.cls.methods:
+                h = m_.cls.methods[inner.func.attr]
+                hb = [x for x in h.node.body if not (isinstance(x, ast.Expr) and isinstance(x.value, ast.Constant))]
+                hp = [a.arg for a in h.node.args.args]
+                if len(hb) == 1 and isinstance(hb[0], ast.Return) and len(hp) == 2:
+                    rv = hb[0].value
+                    if isinstance(rv, ast.Call) and dotted(rv.func) == "float" and rv.args:
+                        rv = rv.args[0]
+                    if isinstance(rv, ast.Subscript) and src(rv.value) == "self.values" and src(rv.slice) == hp[1]:
+                        look = ast.Subscript(value=rv.value, slice=inner.args[0], ctx=ast.Load())
         why = None
+        unk = None
+        if look is None and not any(isinstance(x, ast.Call) and isinstance(x.func, ast.Attribute) and x.func.attr == "values" for x in ast.walk(v)):
+            rep.undecided(f"{construct}: `{src(w)[:60]}` is not a lookup this rule can read")
+            continue
         if look is None or not is_values(look.value):
             why = f"{filled}[{', '.join(idxs)}] is filled from `{src(v)[:50]}`, not from a lookup in self.values"
         else:
             key = look.slice
             if not (isinstance(key, ast.Attribute) and key.attr == "name"):
-                why = f"the lookup key `{src(key)[:40]}` is not a variable's name"
+                unk = f"the lookup key `{src(key)[:40]}` is not `<variable>.name`"
             else:
                 who = key.value
                 if kind == "vector":
                     i = idxs[0] if len(idxs) == 1 else None
                     b = bind.get(i)
                     if b is None:
-                        why = f"index `{i}` is not bound by an enclosing loop"
+                        unk = f"index `{i}` is not bound by a loop form this rule reads"
                     elif b[0] == "enum-index":
                         seq = b[1]
                         item = [nm for nm, bb in bind.items() if bb == ("enum-item", seq)]
-                        if not (seq == f"{handle}._variables" and item and src(who) == item[0]):
+                        if not (seq in (f"{handle}._variables", handle) and item):
+                            unk = f"enumerates `{seq}`"
+                        elif src(who) != item[0] and handle not in src(who) and src(who) not in bind:
+                            unk = f"looks up `{src(who)}`"
+                        elif src(who) != item[0]:
                             why = f"{filled}[{i}] is the value of `{src(who)}`, which is not the {i}-th variable of the handle (enumerate({seq}))"
                     elif b[0] == "range":
-                        if not (src(who) in (f"{handle}._variables[{i}]", f"{handle}[{i}]") and b[1] in (f"{handle}.size", f"len({handle}._variables)", f"len({handle})")):
+                        if handle not in src(who) or handle not in b[1]:
+                            unk = f"looks up `{src(who)}` for {i} in range({b[1]})"
+                        elif not (src(who) in (f"{handle}._variables[{i}]", f"{handle}[{i}]") and b[1] in (f"{handle}.size", f"len({handle}._variables)", f"len({handle})")):
                             why = f"{filled}[{i}] = values[{src(who)}.name] for {i} in range({b[1]}) does not walk the handle position by position"
                     else:
-                        why = f"index `{i}` ranges over `{b[1][:40]}`"
+                        unk = f"index `{i}` ranges over `{b[1][:40]}`"
                 else:
                     if len(idxs) == 1 and bind.get(idxs[0], ("", None))[0] == "cell":
                         cell = idxs[0]
                         rs = bind[cell][1]
-                        if src(who) != f"{handle}[{cell}]":
+                        if handle not in src(who) or any("?" in r_ for r_ in rs):
+                            unk = f"looks up `{src(who)}` over cells {rs}"
+                        elif src(who) != f"{handle}[{cell}]":
                             why = f"{filled}[{cell}] is the value of `{src(who)}`, not of {handle}[{cell}]"
                         elif rs != [f"{handle}.rows", f"{handle}.cols"]:
                             why = f"the cells range over {rs}, not over the handle's rows x columns: part of the matrix stays 0"
@@ -391,10 +416,15 @@ def _handle_fill(rep, m_, kind):
                         bi, bj = bind.get(i), bind.get(j)
                         elem_ok = src(who) in (f"{handle}[{i}, {j}]", f"{handle}._variables[{i}][{j}]", f"{handle}[{i}][{j}]")
                         rng_ok = bi is not None and bj is not None and bi[0] == "range" and bj[0] == "range" and bi[1] == f"{handle}.rows" and bj[1] == f"{handle}.cols"
-                        if not elem_ok:
+                        if handle not in src(who) or bi is None or bj is None or bi[0] != "range" or bj[0] != "range" or handle not in bi[1] or handle not in bj[1]:
+                            unk = f"`{src(w)[:50]}` with {i} over {bi[1] if bi else '?'} and {j} over {bj[1] if bj else '?'}"
+                        elif not elem_ok:
                             why = f"{filled}[{i}, {j}] is the value of `{src(who)}`, not of {handle}[{i}, {j}]"
                         elif not rng_ok:
                             why = f"{i} ranges over {bi[1] if bi else '?'} and {j} over {bj[1] if bj else '?'}, not over the handle's rows and columns: part of the matrix stays 0"
+        if unk is not None and why is None:
+            rep.undecided(f"{construct}: {unk}: not a form this rule reads")
+            continue
         rep.ob("R07.4", construct, why is None, ("result[i] is the value of the i-th variable of the handle" if kind == "vector" else "result[i, j] is the value of mat[i, j], i over rows, j over cols") if why is None else why, loc=f"{m_.module.rel}:{w.lineno}", detail="position")
 
 
